@@ -102,8 +102,8 @@ def vint(ctx, mf):
     del mods[r"^(std::result::)?Result::<.*>::map::<"]
     v = z3.BitVec("v", 64)
     # ---- zig-zag
-    zz_e = mf.find(r"^zig_zag_encode\(")
-    zz_d = mf.find(r"^zig_zag_decode\(")
+    zz_e = mf.find(r"(^|::)zig_zag_encode\(")
+    zz_d = mf.find(r"(^|::)zig_zag_decode\(")
     it = mir.Interp(mf, be, mods)
     pe = it.run(zz_e, [Int(v, 64, True)], [])
     goals = []
@@ -120,8 +120,8 @@ def vint(ctx, mf):
     ctx.prove("c01_zigzag_is_the_standard_bijection", [], z3.And(goals), inputs=[v], functions=f"zig_zag_encode, zig_zag_decode [{FILE}]",
               bounds="all 2^64 values: encode == (v<<1)^(v>>63), decode(encode(v)) == v, no overflow panic", backend="BV", assumes=LIB, witness=False)
     # ---- unsigned vint: encode shape + round trip
-    enc_fn = mf.find(r"^unsigned_vint_encode\(")
-    dec_fn = mf.find(r"^unsigned_vint_decode\(")
+    enc_fn = mf.find(r"(^|::)unsigned_vint_encode\(")
+    dec_fn = mf.find(r"(^|::)unsigned_vint_decode\(")
     it = mir.Interp(mf, be, mods, max_steps=4000)
     sink = Cell(Seq([]))
     paths = it.run(enc_fn, [Int(v, 64, False), Ref(sink)], [])
